@@ -25,6 +25,12 @@ CHECKS = {
     "C14": dict(cat="exploration", tech="exhaustive enumeration of worlds x globs x base spellings; entry equations on every yielded entry",
                 text="Every entry yielded by every walk of the C02 space (six base spellings, rooted variant, path walks) is checked against the entry self-consistency equations.",
                 ref="DESIGN.md §3 C14", note=FS_NOTE),
+    "C15": dict(cat="exploration", tech="exhaustive enumeration of link worlds x depth behaviours (all constructors) x link behaviours, real walks vs reference traversal",
+                text="Every small world with every placement of one (two) symbolic links of every target kind, ten globs with prefix lengths 0-2, both link behaviours and every (min,max) pair through every DepthBehavior constructor are walked for real; yields and link-cycle errors must equal the reference traversal with walkdir's identity-stack link policy; an item cap detects non-termination.",
+                ref="DESIGN.md §3 C15, Appendix C", note=FS_NOTE),
+    "C20": dict(cat="fault_enumeration", tech="exhaustive placement of <= 2 faults x stacks; full item sequence vs reference traversal, run unprivileged",
+                text="Every placement of at most two faults (unreadable directory incl. the root, dangling link, re-entrant link) in every small world, three underlying walks, both link behaviours and combinator stacks aimed at the faulty paths; the complete ordered item sequence (entries and errors with paths and depths) must equal the reference traversal under the pruned-tree model. Runs under uid 65534 so that chmod 000 is effective.",
+                ref="DESIGN.md §3 C20", note=FS_NOTE + " Requires setpriv for permission faults (reported in the evidence when unavailable)."),
     "C16": dict(cat="exploration", tech="stateless exhaustive exploration of stacks x permutations x verdict histories over real walks",
                 text="Same exploration as C13; oracle: every filter layer is called exactly once per fed entry (also for entries discarded upstream), the yield is the set every layer keeps, identical for every permutation of the stack.",
                 ref="DESIGN.md §3 C16", note=FS_NOTE),
